@@ -18,6 +18,9 @@ RULE = (
 
 def run(ctx: Ctx, aspect="verdict"):
     run_witnesses(ctx)
+    from ..rules_common import interpreter_modes
+
+    interpreter_modes(ctx, "rules")
     quick = ctx.quick()
 
     s = Stream(ctx, "corpus")
